@@ -144,6 +144,7 @@ sha256_for_mh_sha256(const uint8_t *input_data, uint32_t *digest, const uint32_t
 {
         uint32_t i, j;
         uint8_t buf[2 * ISAL_SHA256_BLOCK_SIZE];
+        uint64_t len_in_bit;
 
         digest[0] = MH_SHA256_H0;
         digest[1] = MH_SHA256_H1;
@@ -171,7 +172,9 @@ sha256_for_mh_sha256(const uint8_t *input_data, uint32_t *digest, const uint32_t
         else
                 i = ISAL_SHA256_BLOCK_SIZE;
 
-        *(uint64_t *) (buf + i - 8) = to_be64((uint64_t) len * 8);
+        // not a store through uint64_t *: the block function reads buf as 32-bit words
+        len_in_bit = to_be64((uint64_t) len * 8);
+        memcpy(buf + i - 8, &len_in_bit, 8);
 
         sha256_single_for_mh_sha256(buf, digest);
         if (i == (2 * ISAL_SHA256_BLOCK_SIZE))
